@@ -193,7 +193,8 @@ def parse_text_register(text):
 
 def dec_value(j):
     m, s = dec_parts(j)
-    return Decimal(m).scaleb(-s)
+    # exact: Decimal.scaleb would round to the context precision (28 digits; a 96-bit mantissa has up to 29)
+    return Decimal((1 if m < 0 else 0, tuple(int(d) for d in str(abs(m))), -s))
 
 
 # ---------------------------------------------------------------- the check
